@@ -13,9 +13,9 @@ C02_CMDS = F['list'] + F['hash'] + F['set'] + F['sort']
 C03_CMDS = F['zset']
 
 PROPS = {
- 'C01': dict(scope=set(C01_CMDS), bridge=sigs(C01_CMDS) + ['fixRangeString_eq', 'const_MAX_STRING_SIZE_eq'],
+ 'C01': dict(scope=set(C01_CMDS), bridge=sigs(C01_CMDS) + ['fixRangeString_eq', 'const_MAX_STRING_SIZE_eq', 'msg_DECR_OVERFLOW_MSG_eq', 'msg_OVERFLOW_MSG_eq', 'msg_INVALID_INT_MSG_eq'],
              theorems=[]),
- 'C02': dict(scope=set(C02_CMDS), bridge=sigs(C02_CMDS) + ['fixRange_eq'], theorems=[]),
+ 'C02': dict(scope=set(C02_CMDS), bridge=sigs(C02_CMDS) + ['fixRange_eq', 'msg_HASH_NOT_INT_MSG_eq', 'msg_HASH_NOT_FLOAT_MSG_eq'], theorems=[]),
  'C03': dict(scope=set(C03_CMDS), bridge=sigs(C03_CMDS) + ['fixRange_eq', 'floatFormats_eq'], theorems=[]),
  'C04': dict(scope=None, bridge=['sigs_eq', 'sigs_same_names', 'checkArity_eq', 'callArity_ok', 'callArity_table',
                                  'msg_WRONG_ARGS_MSG_eq', 'msg_UNKNOWN_COMMAND_MSG_eq'], theorems=[]),
